@@ -491,6 +491,8 @@ Do(o) ==
             /\ UNCHANGED <<agenda, seq, evs, procs, run, log>>
        (* ---- shared resources ---- *)
        [] o.k = "mkres" ->                         \* s = <<kind code>>; a = capacity; b = initial level
+            \* c = 1 (containers and stores): the capacity given to the implementation is a + 1/2 -- a legal float capacity,
+            \* which bounds whole items and integer amounts exactly as a does ("never holds more than capacity")
             /\ res' = Append(res, [kind |-> ResKind[o.s[1]], cap |-> o.a, users |-> <<>>, putq |-> <<>>, getq |-> <<>>,
                                    level |-> o.b, items |-> <<>>, init |-> o.b])
             /\ procs' = Bump(procs) /\ UNCHANGED <<agenda, seq, evs, run, log>>
